@@ -43,18 +43,32 @@
                             the span of the voters and F_1, so pushing them outwards keeps every voter's order.
        eucl_algo_exact_sound : the same for the extracted instance (exact Fourier-Motzkin point, re-checked), no hypothesis.
        eucl_algo_no_error : the mirror raises nothing on well-formed non-empty profiles.
-       eucl_algo_complete_partial : PARTIAL completeness — a 1-Euclidean profile passes the single-crossing precheck
-                            (sc_algo_complete); that the colouring cannot fail and that the LP on the constructed
-                            axis is feasible (the Elkind-Faliszewski correctness argument) is NOT formalised.
-   What is NOT proved: completeness of the mirrored algorithm (above), and that the implementation equals the mirror: it is
-   tied to the theorems by the correspondence only: its verdict is compared with eucl_decide and with the extracted
-   mirror on every generated profile with m <= 6, n <= 12; its True answers are run through eucl_check at every
-   size; beyond those sizes verdicts are checked on planted embeddings only (planted_sound). CBC (floats) is replaced
-   by an exact LP oracle in the mirror. Status of /repo: four defects found by this check were repaired (5a8bee2,
-   3211aad, 4ca33bd, 74e9e2c; corpus/C19); no open finding. *)
+       eucl_algo_order_independent : the mirror does not depend on the order in which the SETS C_set / C_set_plus are
+                            iterated (the colouring loop ends in the colouring determined by the roles and fails
+                            iff a non-red alternative has both roles; the axis counts are pairwise different, so
+                            the stable sort has no ties): permuting `alts` changes neither the verdict nor the
+                            voters' positions, and the alternatives' positions only up to == on Q.
+       eucl_algo_complete : COMPLETENESS (Elkind-Faliszewski): on a 1-Euclidean profile the precheck passes, the
+                            colouring never takes its failure exit (a non-red alternative with both roles would lie
+                            strictly between v_1 and v_n and hence be red) and the LP on the constructed axis is
+                            feasible (green < red < blue, ties by v_1 / reversed v_n, IS the left-to-right order of
+                            the coloured alternatives in every embedding with v_1 left of v_n; rescaling meets the
+                            margins) — so for every LP oracle that answers None only on infeasible systems the
+                            mirror answers True.
+       eucl_algo_verdict_exact : for every sound and complete LP oracle, eucl_algo_verdict = eucl_decide.
+       eucl_algo_exact_verdict : the EXTRACTED mirror (LP oracle = Fourier-Motzkin with back-substitution, fm_solve_sound /
+                            fm_solve_complete, rescaled to the margins, lp_checked_complete) decides 1-Euclideanness
+                            exactly: eucl_algo_verdict lp_checked = eucl_decide, no hypothesis on the oracle.
+   What is NOT proved: that the implementation equals the mirror (it is tied to the theorems by the correspondence:
+   its verdict is compared with eucl_decide and with the extracted mirror on every generated profile with m <= 6,
+   n <= 12; its True answers are run through eucl_check at every size; beyond those sizes verdicts are checked on
+   planted embeddings only), and that CBC behaves like a sound and complete LP oracle (floats; trusted). Status of
+   /repo: four defects found by this check were repaired (5a8bee2, 3211aad, 4ca33bd, 74e9e2c; corpus/C19); no open
+   finding. *)
 From Coq Require Import List NArith ZArith QArith Qabs Bool Permutation Sorted.
 From PrefVerif Require Import Lib.Val Lib.Contig Model.SP Model.SC Model.SCAlgo Model.Euclid Model.EuclidLP Model.EuclidAlgo
-                              Proofs.SP Proofs.SC Proofs.Euclid Proofs.EuclidLP Proofs.EuclidAlgo.
+                              Proofs.SP Proofs.SC Proofs.Euclid Proofs.EuclidLP Proofs.EuclidAlgo
+                              Proofs.EuclidAlgoOrder Proofs.EuclidAlgoComplete Proofs.EuclidLPSolve.
 Import ListNotations.
 Open Scope Q_scope.
 
@@ -209,9 +223,46 @@ Theorem eucl_algo_no_error : forall lp alts orders,
 Proof. exact Proofs.EuclidAlgo.eucl_algo_no_error. Qed.
 Print Assumptions eucl_algo_no_error.
 
-(* PARTIAL: full statement wanted:  Euclidean orders -> exists y, eucl_algo lp alts orders = Ok (Some y)  for an LP
-   oracle that answers None only on infeasible systems.  Proved: the precheck passes; the mirror can then answer
-   False only through the colouring exit or an infeasible LP on the constructed axis. *)
+(* ---- the order in which Python iterates its sets of alternatives is irrelevant ------------------------------- *)
+Theorem eucl_algo_order_independent : forall lp alts alts' orders,
+  NoDup alts /\ NoDup orders /\ Forall (fun o => Permutation alts o) orders -> Permutation alts alts' ->
+  match eucl_algo lp alts orders, eucl_algo lp alts' orders with
+  | Ok (Some y), Ok (Some y') =>
+      fst y = fst y' /\ Forall2 (fun a b => fst a = fst b /\ snd a == snd b) (snd y) (snd y')
+  | Ok None, Ok None => True
+  | Err e, Err e' => e = e'
+  | _, _ => False
+  end.
+Proof. exact Proofs.EuclidAlgoOrder.eucl_algo_order_independent. Qed.
+Print Assumptions eucl_algo_order_independent.
+
+(* ---- completeness of the mirrored algorithm ------------------------------------------------------------------- *)
+Theorem eucl_algo_complete : forall lp alts orders,
+  (* the LP oracle answers None only on infeasible systems *)
+  (forall prefs axis, NoDup axis -> Forall (fun r => Permutation axis r) prefs ->
+     (exists vs xs, lp_sat prefs axis vs xs) -> lp prefs axis <> None) ->
+  NoDup alts /\ NoDup orders /\ Forall (fun o => Permutation alts o) orders -> orders <> [] -> alts <> [] ->
+  Euclidean orders -> exists y, eucl_algo lp alts orders = Ok (Some y).
+Proof. exact Proofs.EuclidAlgoComplete.eucl_algo_complete. Qed.
+Print Assumptions eucl_algo_complete.
+
+Theorem eucl_algo_verdict_exact : forall lp alts orders,
+  (forall prefs axis vs xs, lp prefs axis = Some (vs, xs) -> lp_sat prefs axis vs xs) ->
+  (forall prefs axis, NoDup axis -> Forall (fun r => Permutation axis r) prefs ->
+     (exists vs xs, lp_sat prefs axis vs xs) -> lp prefs axis <> None) ->
+  NoDup alts /\ NoDup orders /\ Forall (fun o => Permutation alts o) orders -> orders <> [] -> alts <> [] ->
+  eucl_algo_verdict lp alts orders = eucl_decide alts orders.
+Proof. exact Proofs.EuclidAlgoComplete.eucl_algo_verdict_exact. Qed.
+Print Assumptions eucl_algo_verdict_exact.
+
+(* the extracted mirror (c19.algo) is exact: its LP oracle is proved sound and complete on the systems the mirror builds *)
+Theorem eucl_algo_exact_verdict : forall alts orders,
+  NoDup alts /\ NoDup orders /\ Forall (fun o => Permutation alts o) orders -> orders <> [] -> alts <> [] ->
+  eucl_algo_verdict lp_checked alts orders = eucl_decide alts orders.
+Proof. exact Proofs.EuclidLPSolve.eucl_algo_exact_verdict. Qed.
+Print Assumptions eucl_algo_exact_verdict.
+
+(* the first step of the completeness proof, kept for reference: the precheck passes *)
 Theorem eucl_algo_complete_partial : forall alts orders,
   NoDup alts /\ NoDup orders /\ Forall (fun o => Permutation alts o) orders -> Euclidean orders ->
   exists sc_order, sc_algo alts orders = Ok (Some sc_order).
